@@ -1047,6 +1047,17 @@ def run_auer(ctx, case, prop):
     try:
         alg = auer_algorithm(n, m, eps)
         install_auer(alg, case, S0)  # (detects the form of beta_t by running a tiny real Auer.modeling())
+    except stubs.AuerWidthFormUnknown as e:
+        # never guess the internal store: skip the injection family (whole runs still judge Auer from the
+        # displayed regions only) and say so once
+        if not ctx.__dict__.get("_auer_form_reported"):
+            ctx.__dict__["_auer_form_reported"] = True
+            ctx.violation("auer-width-representation-unknown", "the representation of Auer.beta_t produced by this "
+                          f"tree's modeling() is not recognised by the harness ({e}); the Auer families that inject "
+                          "centres/widths are skipped", case, kind="F")
+        ctx.count("auer_injection_skipped")
+        ctx.case_done(case, False)
+        return
     except Exception as e:
         viol(ctx, "crash:Auer.__init__/modeling:" + core.exc_key(e), f"Auer constructor / modeling() raised "
              f"{type(e).__name__}: {e}", case, kind="R")
@@ -1307,8 +1318,11 @@ def instrument(alg):
         def wrapper(real=real, name=name):
             before = snapshot(alg)
             if name != "modeling" and hasattr(alg, "beta_t") and case_is_auer(alg):
-                w = stubs.auer_get_widths(alg, ph_state.get("S_at_modeling", before["S"]))
-                before["widths"] = {i: [float(x) for x in r] for i, r in w.items()}
+                try:
+                    w = stubs.auer_get_widths(alg, ph_state.get("S_at_modeling", before["S"]))
+                    before["widths"] = {i: [float(x) for x in r] for i, r in w.items() if i in before["S"]}
+                except stubs.AuerWidthFormUnknown:
+                    before["widths"] = None  # judged from the displayed boxes only
             if name == "modeling":
                 ph_state["S_at_modeling"] = list(alg.S)
             real()
@@ -1697,8 +1711,7 @@ def check_round_auer(ctx, case, prop, alg, ph, rnd):
     _, b_dis, a_dis = ph["discarding"]
     _, b_par, a_par = ph["pareto_updating"]
     S0, P0 = b_dis["S"], b_dis["P"]
-    own = b_dis["widths"]  # {design: own width row} as displayed when discarding() started
-    rows = np.array([own[i] for i in S0], dtype=float)  # the positional table of the original code
+    own = b_dis.get("widths")  # {design: width row the rule summed} — None if the internal store is not recognised
     n = alg.design_space.cardinality
     m = alg.m
     regs = alg.design_space.confidence_regions
@@ -1707,9 +1720,16 @@ def check_round_auer(ctx, case, prop, alg, ph, rnd):
     S1, S2, P2 = sset(a_dis["S"]), sset(a_par["S"]), a_par["P"]
     # (R) the widths the rule sums must be the half-widths of the DISPLAYED boxes: Auer's certificate is a
     # statement about the regions the design space shows (centre ± width)
-    shown = {i: (np.asarray(regs[i].upper, dtype=float) - np.asarray(regs[i].lower, dtype=float)) / 2.0 for i in S0}
-    off = [i for i in S0 if np.any(np.abs(shown[i] - np.asarray(own[i], dtype=float))
-                                   > 1e-9 * max(1.0, float(np.max(np.abs(regs[i].upper))), float(np.max(own[i]))))]
+    shown = stubs.auer_displayed_widths(alg, S0)
+    # everything below is judged from the DISPLAYED boxes (centre, half-width); `rows` is the positional table the
+    # original code would have read (only used to attribute a mismatch to auer-width-by-position)
+    rows = np.array([shown[i] for i in S0], dtype=float)
+    if own is None or any(i not in own for i in S0):
+        ctx.count("auer_internal_widths_unreadable_info")
+        off = []
+    else:
+        off = [i for i in S0 if np.any(np.abs(shown[i] - np.asarray(own[i], dtype=float))
+                                       > 1e-9 * max(1.0, float(np.max(np.abs(regs[i].upper))), float(np.max(own[i]))))]
     if off:
         # consequence: the real round against the model's round evaluated on the displayed boxes
         wd = [[0.0] * m for _ in range(n)]
@@ -1733,8 +1753,8 @@ def check_round_auer(ctx, case, prop, alg, ph, rnd):
                                      "rule_on_displayed_boxes": ref})
         return False
     verdicts = []
-    # borderline band: float `β_i + β_j` vs exact rational addition; widths scaled by (1 ± 2^-40)
-    for f in (1.0 - 2.0 ** -40, 1.0 + 2.0 ** -40):
+    # borderline band: float `β_i + β_j` vs exact rational addition, and (upper − lower)/2 vs β: widths × (1 ± 1e-9)
+    for f in (1.0 - 1e-9, 1.0 + 1e-9):
         wd = [[0.0] * m for _ in range(n)]
         for k, i in enumerate(S0):
             wd[i] = [float(x) * f for x in rows[k]]
